@@ -44,7 +44,7 @@ pub fn gen_flow(
 
             let raises_before = env.raises_caught.clone();
             let outer_env = generate(expr_or_stmt, &env.raises_caught(&raises), ctx, constr)?
-                .raises_caught(&raises_before);
+                .with_raises_caught(&raises_before);
 
             constrain_cases(ast, &None, cases, &outer_env, ctx, constr)
         }
